@@ -25,6 +25,8 @@ def run(ctx):
                        'configurations of the S-run matrix whose objective arguments and reported best positions were checked; '
                        'non-trivial = configurations with extreme draw scripts, narrow/huge/degenerate boxes or a moving hook')
     # the property oracle on the real implementation (always), focused runs for whatever broke
+    if ok:
+        _ir.trace_inclusion(ctx, meta)
     _ir.monitor(ctx)
     _ir.translation_failures(ctx, errors)
     ctx.sample({'theorem': 'C01_evaluations_feasible: forall p, c01_check p = true -> forall lbs ubs f n_iter INIT, box_ok -> forall o x0 x\' evs o\', '
